@@ -16,10 +16,16 @@ def main():
     m = json.load(open(os.path.join(VERIF, "MANIFEST.json")))
     seen = {}
     bad = []
-    for c in m["checks"]:
+    jobs = int(os.environ.get("FINALIZE_JOBS", "1"))   # FINALIZE_JOBS=4: run that many checks at a time
+    from concurrent.futures import ThreadPoolExecutor
+
+    def one(c):
+        return subprocess.run([os.path.join(VERIF, "check"), c["property_id"], "--tier", tier], cwd=VERIF,
+                              stdout=subprocess.PIPE, stderr=subprocess.STDOUT, text=True)
+    with ThreadPoolExecutor(max_workers=jobs) as ex:
+        results = list(ex.map(one, m["checks"]))
+    for c, p in zip(m["checks"], results):
         pid = c["property_id"]
-        p = subprocess.run([os.path.join(VERIF, "check"), pid, "--tier", tier], cwd=VERIF, stdout=subprocess.PIPE,
-                           stderr=subprocess.STDOUT, text=True)
         last = [l for l in p.stdout.split("\n") if l.startswith(pid + " ")]
         print(pid, "rc=%d" % p.returncode, last[-1] if last else p.stdout[-300:])
         if p.returncode != 0:
